@@ -89,6 +89,9 @@ def _mt_inv(c):
   return z3.And(0 <= c.k, c.k <= sig_n(g), c.v('node') == node, c.v('state') == c['state'],
                 isref(h0, node, 'Buildable'),
                 CF.BInv(h, node), CF.internals_same(h, h0, node), _store_after(c, c.k),
+                # the SignatureInfo still describes the same signature
+                h.fld(ref(CF.bfields(h0, node)[0]), 'signature')
+                == h0.fld(ref(CF.bfields(h0, node)[0]), 'signature'),
                 FA([z3.Int('mt_i')], z3.Not(isref(h, sig_dflt(g, z3.Int('mt_i')), 'TaggedValueCls')),
                    patterns=[sig_dflt(g, z3.Int('mt_i'))]))
 
@@ -122,11 +125,12 @@ def _mt_nvar(c):
 contract(
     'materialize.materialize_defaults.traverse', F, 'materialize_defaults.<locals>.traverse',
     requires=_mt_req, ensures=_mt_post, may_raise=('BaseException',), havoc_all=True, result='none',
+    may_raise_from=('daglish.State.yield_map_child_values',),
     loops={0: Loop(_mt_inv, facts=_mt_nvar, hints=lambda c: _mt_hints(c),
                    pivots=lambda c: [poskey(_mt_terms(c)[2], c.k), c.k])},
     calls={'state.yield_map_child_values': 'daglish.State.yield_map_child_values',
            'config._field_uses_default_factory': 'config._field_uses_default_factory'},
-    props=(),  # NOT YET DISCHARGED: loop0/preserve (the two assigning paths) stays `unknown`; kept for a later session
+    props=('C20',),
     note='per node: afterwards every parameter that has a default value (and is not a dataclass '
          'default_factory field) is set — to its previous value if it was set, to the default '
          'otherwise — under its canonical key (index for positional-only); no other argument '
